@@ -125,7 +125,7 @@ def main():
     # 1. proof obligations
     lean = {"ok": True, "obligations": [], "module": None}
     if not a.no_lean:
-        lean = vlib.lean_obligations(pid, leanchecker=(tier == "thorough"))
+        lean = vlib.lean_obligations(pid, leanchecker=(tier == "thorough"), extra=spec.get("extra_props", ()))
     # extraction-style obligations (generated Lean data compared by `decide`) are part of the Props module
 
     # 2/3. correspondence + monitors
